@@ -56,6 +56,10 @@ pub fn gen(a: &Args) -> i32 {
         let big = r.chance(1, 3);
         writeln!(out, "case {case} {}", if tsmode { "ts" } else { "bw" }).unwrap();
         st.bump(if tsmode { "order_timestamp" } else { "order_bytewise" });
+        if r.chance(1, 5) {
+            heavy_case(&mut out, &mut r, &mut st, tsmode, a.thorough);
+            continue;
+        }
         let nkeys = r.range(8, if a.thorough { 220 } else { 90 });
         // a fixed length per key id; in ts mode several timestamps per id
         let klens: Vec<usize> = (0..nkeys).map(|_| klen_of(&mut r, big)).collect();
@@ -110,6 +114,73 @@ pub fn gen(a: &Args) -> i32 {
         std::fs::write(&a.stats, st.to_json()).unwrap();
     }
     0
+}
+
+/// a tree of three or more levels whose separators own overflow chains (every key above the
+/// on-page limit of an internal node), shrunk from one end or the middle so that internal nodes
+/// underflow next to a well-filled sibling (merge / redistribution through the parent), then grown
+/// again so that freed pages are reused, with audits in between and a reopen
+fn heavy_case(out: &mut impl Write, r: &mut Rng, st: &mut Stats, tsmode: bool, thorough: bool) {
+    st.bump("heavy_case");
+    let nkeys = r.range(150, if thorough { 520 } else { 340 });
+    let klens: Vec<usize> = (0..nkeys).map(|_| if r.chance(1, 10) { r.range(4, 40) as usize } else { r.range(1050, 1900) as usize }).collect();
+    let mut vid = 0u64;
+    let mut vl = |r: &mut Rng| -> usize { if r.chance(1, 8) { r.range(1200, 2500) as usize } else { r.range(0, 24) as usize } };
+    let ts = |r: &mut Rng| if tsmode { r.below(2) * 10 } else { 0 };
+    // 1. insert every key, in random order
+    let mut order: Vec<u64> = (0..nkeys).collect();
+    for i in (1..order.len()).rev() {
+        order.swap(i, r.below(i as u64 + 1) as usize);
+    }
+    for k in &order {
+        vid += 1;
+        writeln!(out, "ins {k}:{}:{} {vid}:{}", klens[*k as usize], ts(r), vl(r)).unwrap();
+        st.bump("ins");
+    }
+    writeln!(out, "audit").unwrap();
+    for round in 0..2 {
+        // 2. delete a contiguous stretch of the key space
+        let len = nkeys * r.range(40, 75) / 100;
+        let (lo, desc) = match r.below(3) {
+            0 => (nkeys - len, true),  // from the top, descending
+            1 => (0, false),           // from the bottom, ascending
+            _ => (r.below(nkeys - len + 1), r.chance(1, 2)),
+        };
+        st.bump(if desc { "heavy_delete_desc" } else { "heavy_delete_asc" });
+        for j in 0..len {
+            let k = if desc { lo + len - 1 - j } else { lo + j };
+            for t in if tsmode { vec![0, 10] } else { vec![0] } {
+                writeln!(out, "del {k}:{}:{t}", klens[k as usize]).unwrap();
+                st.bump("del");
+            }
+            if j % 12 == 11 {
+                writeln!(out, "audit").unwrap();
+                st.bump("audit");
+            }
+        }
+        writeln!(out, "audit").unwrap();
+        writeln!(out, "scan {}", if r.chance(1, 2) { "fwd" } else { "bwd" }).unwrap();
+        // 3. grow again: new and overwritten keys reuse the freed pages
+        for _ in 0..r.range(40, 160) {
+            let k = r.below(nkeys);
+            vid += 1;
+            writeln!(out, "ins {k}:{}:{} {vid}:{}", klens[k as usize], ts(r), vl(r)).unwrap();
+            st.bump("ins");
+            if r.chance(1, 6) {
+                let g = r.below(nkeys);
+                writeln!(out, "get {g}:{}:{}", klens[g as usize], ts(r)).unwrap();
+                st.bump("get");
+            }
+        }
+        writeln!(out, "audit").unwrap();
+        if round == 0 {
+            writeln!(out, "reopen").unwrap();
+            st.bump("reopen");
+        }
+    }
+    writeln!(out, "reopen").unwrap();
+    writeln!(out, "audit").unwrap();
+    writeln!(out, "scan fwd").unwrap();
 }
 
 fn parse_key(s: &str) -> (u64, usize, u64) {
